@@ -106,6 +106,52 @@ def _replace(src, dst, *a, **kw):
     return _real_replace(src, dst, *a, **kw)
 
 
+_real_sendfile = getattr(os, "sendfile", None)
+_real_remove = os.remove
+_real_unlink = os.unlink
+_real_link = os.link
+
+
+def _fdpath(fd):
+    try:
+        return os.readlink("/proc/self/fd/%d" % fd)
+    except OSError:
+        return "fd:%d" % fd
+
+
+def _sendfile(out_fd, in_fd, offset, count, *a, **kw):
+    # the kernel-side copy shutil uses for files (copy across file systems): a write of up to `count` bytes
+    m = _st.ev("write", _fdpath(out_fd), count)
+    if m in ("none", "sigint"):
+        _die()
+    if m == "half":
+        try:
+            left = os.fstat(in_fd).st_size - (offset or 0)
+        except OSError:
+            left = count
+        _real_sendfile(out_fd, in_fd, offset, max(0, min(count, left) // 2))
+        _die()
+    return _real_sendfile(out_fd, in_fd, offset, count, *a, **kw)
+
+
+def _remove(path, *a, **kw):
+    if _st.ev("remove", os.fspath(path)):
+        _die()
+    return _real_remove(path, *a, **kw)
+
+
+def _unlink(path, *a, **kw):
+    if _st.ev("remove", os.fspath(path)):
+        _die()
+    return _real_unlink(path, *a, **kw)
+
+
+def _link(src, dst, *a, **kw):
+    if _st.ev("rename", os.fspath(dst), os.fspath(src)):
+        _die()
+    return _real_link(src, dst, *a, **kw)
+
+
 def install(crash_at, mode, logfd):
     global _st
     _st = _State(crash_at, mode, logfd)
@@ -114,6 +160,14 @@ def install(crash_at, mode, logfd):
 
     H.open = _open
     C.open = _open
+    # every other module of the process too (shutil's copy fallback, tempfile, ...): the unchanged tool writes through
+    # the two modules above only, so this adds no events there
+    builtins.open = _open
+    if _real_sendfile is not None:
+        os.sendfile = _sendfile
+    os.remove = _remove
+    os.unlink = _unlink
+    os.link = _link
     os.mkdir = _mkdir
     os.rename = _rename
     os.replace = _replace
